@@ -288,7 +288,9 @@ func TestC09(t *testing.T) {
 	hx.Main(t, "C09", func(rec *hx.Recorder) {
 		seed := hx.Seed()
 		var replay *Program
+		var rp0 *hx.Replay
 		if rp, ok := hx.LoadReplay(); ok {
+			rp0 = rp
 			replay = &Program{}
 			json.Unmarshal(rp.Case, replay)
 			if replay.PoolSeed != 0 {
@@ -361,7 +363,7 @@ func TestC09(t *testing.T) {
 			rec.Eval("replay", 50)
 			for i := 0; i < 50; i++ {
 				if sig, msg, ok := runProgram(replay, "replay"); !ok {
-					rec.Fail("programs-"+replay.Campaign, sig, msg, replay)
+					rec.Fail(rp0.Sub, sig, msg, replay)
 					return
 				}
 			}
@@ -395,6 +397,68 @@ func TestC09(t *testing.T) {
 				p.Routines = append(p.Routines, list)
 			}
 			return p
+		}
+
+		// focused programs: all goroutines of a program work on inputs of one
+		// family (local timestamps, generated streams, rejected inputs,
+		// chains, repository files, accumulating streams), so that state
+		// shared between calls on similar inputs is hit from several
+		// goroutines in every run, not only when the random programs
+		// happen to collide
+		family := func(name string) string {
+			switch {
+			case strings.HasPrefix(name, "local timestamp"):
+				return "local timestamps"
+			case strings.Contains(name, "header file cut") || strings.HasPrefix(name, "illegal header") || strings.HasPrefix(name, "wrong file CRC"):
+				return "rejected inputs"
+			case name == "generated stream" || name == "accumulating stream" || name == "chain":
+				return name + "s"
+			}
+			return "repository files"
+		}
+		isAccum := map[int]bool{}
+		for _, i := range accum {
+			isAccum[i] = true
+		}
+		fams := map[string][]int{}
+		var famOrder []string
+		for i, n := range pool.Names {
+			k := family(n) + map[bool]string{false: "|A", true: "|B"}[isAccum[i]]
+			if fams[k] == nil {
+				famOrder = append(famOrder, k)
+			}
+			fams[k] = append(fams[k], i)
+		}
+		sort.Strings(famOrder)
+		focused := rapid.Custom(func(rt *rapid.T) []*Program {
+			d := gen.D{T: rt}
+			var out []*Program
+			for _, k := range famOrder {
+				inputs := fams[k]
+				p := &Program{PoolSeed: seed, Campaign: k[len(k)-1:], GoMaxProcs: 8}
+				for g := 0; g < 8; g++ {
+					var list []ops.Op
+					for j := 0; j < 10; j++ {
+						kind := ops.OpKinds[d.Int(0, len(ops.OpKinds)-1, "kind")]
+						if strings.HasPrefix(kind, "encode") {
+							kind = "decode"
+						}
+						list = append(list, ops.Op{Kind: kind, Idx: inputs[d.Int(0, len(inputs)-1, "input")]})
+					}
+					p.Routines = append(p.Routines, list)
+				}
+				out = append(out, p)
+			}
+			return out
+		}).Example(int(seed))
+		for i, p := range focused {
+			rec.Eval("focused", 1)
+			rec.NonTrivial(hx.FP(fmt.Sprint(p)))
+			rec.Class("focused program: "+famOrder[i][:len(famOrder[i])-2], 1)
+			if sig, msg, ok := runProgram(p, "focused"); !ok {
+				rec.Fail("focused-"+p.Campaign, sig, "all goroutines on the input family '"+famOrder[i][:len(famOrder[i])-2]+"': "+msg, p)
+				break
+			}
 		}
 
 		for _, campaign := range []string{"A", "B"} {
